@@ -146,7 +146,10 @@ def oracle_ext(res, xd, rest, endpoint, cases, multi=None):
         # depend on which others the request carries)
         nth = res.stats.hist.get('oracle_' + k, 0) if hasattr(res.stats, 'hist') else 0
         extra = {'5': 200, '4': 7} if nth % 3 == 2 else None
-        out = rest.post_attr(endpoint, 16, [text], extra=extra)
+        # (json_to_bin alternately in its `format=human` layout; the number of prefixes varies so that the message length
+        # takes every residue modulo 8, the width of a line of that layout)
+        nlri = ['10.%d.0.0/16' % i for i in range(1 + nth % 8)]
+        out = rest.post_attr(endpoint, 16, [text], extra=extra, human=(endpoint == 'json_to_bin' and nth % 2 == 1), nlri=nlri)
         if 'hex' not in out:
             res.fail('C17', 'REST %s does not accept the decoded text of a %s community' % (endpoint, k),
                      dict(case, text=text, rest=out), key='rest-rejects:' + k)
